@@ -144,6 +144,68 @@ def _sample_shard(item):
     return part
 
 
+# the if lowering must not let a FALSY value of the taken branch fall through into the else branch
+FALSY = ["0", "0.0", "''", "b''", "()", "[]", "{}", "None", "False", "set()", "0j", "range(0)", "frozenset()",
+         "bytearray()", "-0.0", "0 * 5", "'' * 3", "not 1"]
+TRUTHY = ["1", "'a'", "b'0'", "(0,)", "[0]", "-1", "0.1", "True", "...", "{0: 0}"]
+BODY_FORMS = [
+    "x = %s", "%s", "x = y = %s", "o.a = %s", "d['k'] = %s", "(z := %s)", "x: object = %s", "x = 1\n    x *= %s",
+    "lst = [1]\n    lst[0:1] = [%s]", "x, y = %s, %s", "M(7) if %s else M(8)", "f = lambda: %s", "def g():\n        return %s",
+    "pass\n    x = %s", "x = (%s, )[0]",
+]
+
+
+def falsy_cases():
+    for vi, v in enumerate(FALSY + TRUTHY):
+        for fi, form in enumerate(BODY_FORMS):
+            body = form.replace("%s", v)
+            for shape in ("ifelse", "ifelifelse", "nested"):
+                pre = "o = OBJ('o')\nd = BOX('d', {})\n"
+                if shape == "ifelse":
+                    src = pre + "if C(1):\n    %s\nelse:\n    M(2)\nM(3)\n" % body
+                elif shape == "ifelifelse":
+                    src = pre + "if C(1):\n    %s\nelif C(4):\n    %s\nelse:\n    M(2)\nM(3)\n" % (body, body)
+                else:
+                    b2 = body.replace("\n    ", "\n        ")
+                    src = pre + "for v in IT(5):\n    if C(1):\n        %s\n    else:\n        M(2)\n        continue\n    M(6)\nM(3)\n" % b2
+                yield (vi, fi, shape, src)
+
+
+def _falsy_shard(item):
+    idx, nshards = item
+    part = new_part()
+    for k, (vi, fi, shape, src) in enumerate(falsy_cases()):
+        if k % nshards != idx:
+            continue
+        try:
+            code = compile(src, "<falsy>", "exec")
+        except SyntaxError as e:
+            raise env.HarnessError("falsy-body case does not compile: %s\n%s" % (e, src))
+        part["evaluations"] += 1
+        part["classes"]["falsy-body-family"] += 1
+        part["nontrivial"].add(key_hash("falsy", vi, fi, shape))
+        for sched in (0, 1, 2):
+            o = run_code(code, "exec", Kit(sched, ORIG_FUEL), want_globals=False)
+            if not o["ok"]:
+                # a value that the body form cannot take (x *= {}): outside the family
+                part["discarded"]["falsy-family-original-raises"] += 1
+                break
+            for cfg in env.ALL_CFGS:
+                try:
+                    text = env.convert(src, cfg, 0)
+                    c = run_code(text, "eval", Kit(sched, 10 * o["used"] + 200), want_globals=False)
+                    diffs = compare_obs(o, c, check_globals=False, check_stdout=False)
+                except BaseException as e:
+                    diffs = ["conversion raised %s: %s" % (type(e).__name__, str(e)[:160])]
+                if diffs:
+                    if len(part["violations"]) < 3:
+                        part["violations"].append({
+                            "payload": program_payload(src, cfg, sched, 0, check_globals=False, check_stdout=False),
+                            "diffs": diffs, "what": "if-branch with a falsy/truthy single statement (%s)" % env.cfg_name(cfg)})
+                    break
+    return part
+
+
 def run(report):
     quick = report.tier == "quick"
     bound = 4 if quick else 5
@@ -166,6 +228,9 @@ def run(report):
     items.sort(key=lambda it: -sizes["%s:n=%d" % (it[0], it[1])] // it[3])
     for part in env.pmap(_sweep_shard, items):
         report.absorb(part)
+    for part in env.pmap(_falsy_shard, [(i, env.NPROC) for i in range(env.NPROC)]):
+        report.absorb(part)
+    report.extra["falsy_body_family"] = {"values": len(FALSY) + len(TRUTHY), "body_forms": len(BODY_FORMS), "shapes": 3}
     report.extra["exhaustive_family"] = {"bound_n": bound, "skeleton_counts": sizes,
                                          "schedules": list(SCHEDS)}
     report.exhaustive = True
